@@ -15,14 +15,16 @@ pub struct CompatCase {
     /// multi-file variant: another file (a package of its own) is loaded first, so that elements of another file
     /// precede the checked file's elements under the shared parents
     pub other_first: bool,
+    /// character-data elements that carry attributes lose their text (<X-REF DEST="..."/>): elements without content
+    pub hollow: bool,
 }
 
 impl CompatCase {
     fn to_json(&self) -> Value {
-        json!({"kind": "compat", "doc": self.doc.to_json(), "target_vi": self.target, "other_first": self.other_first})
+        json!({"kind": "compat", "doc": self.doc.to_json(), "target_vi": self.target, "other_first": self.other_first, "hollow": self.hollow})
     }
     fn from_json(v: &Value) -> Option<CompatCase> {
-        Some(CompatCase { doc: DocCase::from_json(&v["doc"])?, target: v["target_vi"].as_u64()? as usize, other_first: v["other_first"].as_bool().unwrap_or(false) })
+        Some(CompatCase { doc: DocCase::from_json(&v["doc"])?, target: v["target_vi"].as_u64()? as usize, other_first: v["other_first"].as_bool().unwrap_or(false), hollow: v["hollow"].as_bool().unwrap_or(false) })
     }
 }
 
@@ -47,8 +49,43 @@ fn first_strict_error(text: &[u8]) -> Option<String> {
     m.load_buffer(text, "t.arxml", true).err().map(|e| e.to_string())
 }
 
+/// does the document carry an attribute whose enumeration value does not exist in the target version?
+fn has_attr_enum_outside(n: &ANode, tbit: u32) -> bool {
+    for (a, v) in &n.attrs {
+        if let (Some(spec), AVal::Enum(item)) = (n.etype.find_attribute_spec(*a), v) {
+            if let CharacterDataSpec::Enum { items } = spec.spec {
+                if items.iter().any(|(i, m)| i == item && m & tbit == 0) {
+                    return true;
+                }
+            }
+        }
+    }
+    n.children().any(|k| has_attr_enum_outside(k, tbit))
+}
+
+fn hollow_out(n: &mut ANode) {
+    if n.etype.content_mode() == autosar_data_specification::ContentMode::Characters && !n.attrs.is_empty() {
+        n.content.clear();
+    }
+    for c in &mut n.content {
+        if let AContent::Elem(e) = c {
+            hollow_out(e);
+        }
+    }
+}
+
 pub fn run_case(c: &CompatCase, st: &mut Stats) -> Result<(), Failure> {
-    let Some(doc) = c.doc.build() else { return Ok(()) };
+    let Some(mut doc) = c.doc.build() else { return Ok(()) };
+    if c.hollow {
+        hollow_out(&mut doc.root);
+        st.class("hollow-elements");
+        // an element without text is not always valid: such documents are simply skipped
+        let (probe, _) = render(&doc, &[], true);
+        if AutosarModel::new().load_buffer(&probe, "probe.arxml", true).is_err() {
+            st.class("hollow:not-valid-in-own-version(skipped)");
+            return Ok(());
+        }
+    }
     let v = doc.version;
     let t = versions()[c.target];
     let (bytes_v, _) = render(&doc, &[], true);
@@ -94,9 +131,16 @@ pub fn run_case(c: &CompatCase, st: &mut Stats) -> Result<(), Failure> {
             .collect::<Vec<_>>()
             .join(", ")
     };
+    let attr_enum_bad = has_attr_enum_outside(&doc.root, t as u32);
     let reason_class = |e: &str| -> &'static str {
         if e.contains("Multiple conflicting sub elements") {
             "choice-conflict-in-target"
+        } else if e.contains("Attribute ") && e.contains("but is not allowed in") {
+            // a KNOWN attribute whose version mask excludes the target (the recorded gap KF-C17-2 is about attributes the
+            // target's element type does not know at all)
+            "attribute-version"
+        } else if e.contains("enum item") && attr_enum_bad {
+            "attribute-enum-item"
         } else if e.contains("enum item") {
             "enum-item"
         } else if e.contains("required sub element SHORT-NAME") || e.contains("SHORT-NAME was not found") {
@@ -214,9 +258,16 @@ pub fn run_mislabel_case(c: &CompatCase, label: usize, st: &mut Stats) -> Result
     if !warnings.is_empty() {
         st.nontrivial(mix(fnv(&bytes_l), c.target as u64));
     }
+    let attr_enum_bad = has_attr_enum_outside(&doc.root, t as u32);
     let reason_class = |e: &str| -> &'static str {
         if e.contains("Multiple conflicting sub elements") {
             "choice-conflict-in-target"
+        } else if e.contains("Attribute ") && e.contains("but is not allowed in") {
+            // a KNOWN attribute whose version mask excludes the target (the recorded gap KF-C17-2 is about attributes the
+            // target's element type does not know at all)
+            "attribute-version"
+        } else if e.contains("enum item") && attr_enum_bad {
+            "attribute-enum-item"
         } else if e.contains("enum item") {
             "enum-item"
         } else if e.contains("required sub element SHORT-NAME") || e.contains("SHORT-NAME was not found") {
@@ -277,7 +328,7 @@ pub fn run(ctx: &Ctx) {
         // make optional content likely: prepend a few "yes" cells
         let mut t2 = vec![u32::MAX; 3];
         t2.extend_from_slice(tape);
-        let c = CompatCase { doc: DocCase { vi: *vi, target: tid, tape: t2, style: vec![], budget: 14, plain: true }, target: *target, other_first: *other_first };
+        let c = CompatCase { doc: DocCase { vi: *vi, target: tid, tape: t2, style: vec![], budget: 14, plain: true }, target: *target, other_first: *other_first, hollow: tape.first().is_some_and(|x| x % 5 == 0) };
         match run_case(&c, st) {
             Ok(()) => Outcome::Pass,
             Err(f) => {
@@ -300,7 +351,7 @@ pub fn run(ctx: &Ctx) {
         t2.extend_from_slice(tape);
         // half of the cases ask about the file's OWN version
         let target = if *same < 2 { *label } else { *target };
-        let c = CompatCase { doc: DocCase { vi: *vi, target: tid, tape: t2, style: vec![], budget: 14, plain: true }, target, other_first: false };
+        let c = CompatCase { doc: DocCase { vi: *vi, target: tid, tape: t2, style: vec![], budget: 14, plain: true }, target, other_first: false, hollow: false };
         match run_mislabel_case(&c, *label, st) {
             Ok(()) => Outcome::Pass,
             Err(f) => {
@@ -319,7 +370,7 @@ pub fn replay(ctx: &Ctx, case: &Value) {
     let mut st = Stats::new();
     if case["kind"] == "mislabel" {
         if let (Some(doc), Some(label), Some(target)) = (DocCase::from_json(&case["doc"]), case["label_vi"].as_u64(), case["target_vi"].as_u64()) {
-            let c = CompatCase { doc, target: target as usize, other_first: false };
+            let c = CompatCase { doc, target: target as usize, other_first: false, hollow: false };
             if let Err(f) = run_mislabel_case(&c, label as usize, &mut st) {
                 ctx.report(f);
             }
